@@ -699,6 +699,11 @@ def _partition(m, o):
 @op('assign_str')
 def _assign(m, o):
     x = m.regs[o['r']]
+    if 'src' in o:
+        # the new text given as an AnsiStr (a str): its TEXT is what is assigned
+        arg = m.regs[o['src']]
+        s = arg if type(arg) is str else arg.base_str
+        return {'text': cps(s)}, (lambda: x.assign_str(arg)), 'none', {'inplace': True}
     s = o['text']
     return {'text': cps(s)}, (lambda: x.assign_str(s)), 'none', {'inplace': True}
 
